@@ -117,7 +117,7 @@ class RuleCtx:
             self.obls.append(Obligation(self.rd.property_id, self.rd.rid, self.rd.kind, q, "fail", what, f, line or l, role,
                                         str(expected), str(found), sample=_jsonable(sample) or None))
             return
-        if "@mutated" in ftxt:
+        if "@mutated" in ftxt and not self.evidence:
             self.obls.append(Obligation(self.rd.property_id, self.rd.rid, self.rd.kind, q, "error",
                                         f"cannot decide `{what}`: the value is completed by an in-place library call (numpy.fill_diagonal, numpy.putmask, out= ...) "
                                         f"that the term language does not model: {ftxt[:120]}", f, line or l, role))
